@@ -305,6 +305,29 @@ func groupTyped(s *sink, g *hx.Gen) {
 			s.finding(Finding{Prop: "C15", What: "a schema is reported incompatible with " + twin.name, Detail: []string{where, cerr.Error()}})
 		}
 	}
+	// the typed entry points of a one-of take `any`: nil (untyped, or of an interface type) is refused, not dereferenced
+	var tyNilShape tyShape
+	for _, nilArg := range []any{nil, tyNilShape, (*tyCircle)(nil), map[string]any(nil)} {
+		nilArg := nilArg
+		var r1, r2 hx.Result
+		switch o := core.build().(type) {
+		case *schema.OneOfSchema[string]:
+			r1 = hx.Guard(func() hx.Result { _ = o.ValidateType(nilArg); return hx.Result{R: "ok"} })
+			r2 = hx.Guard(func() hx.Result { _, _ = o.SerializeType(nilArg); return hx.Result{R: "ok"} })
+		case *schema.OneOfSchema[int64]:
+			r1 = hx.Guard(func() hx.Result { _ = o.ValidateType(nilArg); return hx.Result{R: "ok"} })
+			r2 = hx.Guard(func() hx.Result { _, _ = o.SerializeType(nilArg); return hx.Result{R: "ok"} })
+		default:
+			continue
+		}
+		s.stats["typed:oneof-nil"]++
+		if r1.R == "panic" {
+			s.finding(Finding{Prop: "C04", What: "ValidateType of a one-of panicked: " + r1.Msg, Detail: []string{core.name, fmt.Sprintf("argument %#v", nilArg)}})
+		}
+		if r2.R == "panic" {
+			s.finding(Finding{Prop: "C04", What: "SerializeType of a one-of panicked: " + r2.Msg, Detail: []string{core.name, fmt.Sprintf("argument %#v", nilArg)}})
+		}
+	}
 	inputs := tyTargeted()
 	for i := 0; i < 6; i++ {
 		inputs = append(inputs, g.RandomVal(0).ToGo())
